@@ -13,14 +13,14 @@ MANIFEST = {
             'write-back and feasibility gate; sign provenance in the parsers; must-follow rule on re-bindings of view-wrapped storage (the mass view weight-basis '
             'reactions write through); selection-mask rule; copy-needs-write-back and container re-attachment rules',
     'text': 'Decides for every input the form of the update (material += material[r]*X*S; parallel extents all computed from the feed before the first update; '
-            'series/system sequential), that the reactant coefficient is normalised to -1 after every store of stoichiometry or reactant index, that the '
-            'weight-basis conversion is an inverse pair followed by rescale, that __call__/force_reaction always write back and restore the configuration, that '
-            'both parsers negate left-hand coefficients, that a normal return passed the feasibility gate, and that every re-binding of the molar storage (the '
+            'series/system sequential), that the reactant coefficient is normalised to -1 after every store of stoichiometry or reactant index, that the weight-'
+            'basis conversion is an inverse pair followed by rescale, that __call__/force_reaction always write back and restore the configuration, that both '
+            'parsers negate left-hand coefficients, that a normal return passed the feasibility gate, and that every re-binding of the molar storage (the '
             'reset_chemicals pair of the configuration switch included) drops or replaces the cached mass view, without which a weight-basis reaction acts on '
             'discarded data. The round-off clean-up never applies a mask computed over the negative entries to the whole material; as_material_array returns the '
             "caller's object itself or a copy together with its write-back target; reset_chemicals(chemicals, container) re-binds the container as the indexer's "
-            'storage in both indexer classes. Mass/atom conservation additionally assumes a balanced stoichiometry (an input assumption) and is not decided '
-            'numerically.',
+            "storage in both indexer classes; the reacted copy is written back before the stream's chemicals configuration is restored. Mass/atom conservation "
+            'additionally assumes a balanced stoichiometry (an input assumption) and is not decided numerically.',
 }
 
 RX = 'thermosteam/reaction/_reaction.py'
